@@ -175,7 +175,7 @@ class SendProxy(object):
 
 
 class Traced(object):
-    __slots__ = ("trace", "stamps", "outcome", "exc", "ready_left", "horizon_hit", "interrupted", "nrec")
+    __slots__ = ("trace", "stamps", "outcome", "exc", "ready_left", "horizon_hit", "interrupted", "nrec", "parents")
 
     def __init__(self):
         self.trace = []          # ("tick", k, stamp) markers, ("interrupt", k) and send dicts, in order
@@ -186,6 +186,7 @@ class Traced(object):
         self.horizon_hit = False
         self.interrupted = None
         self.nrec = 0
+        self.parents = {}        # (framer, frame) -> name of the frame it is nested in (static program structure)
 
 
 def run_traced(house, events, tick=0.125, horizon=40, stamp=0.0, interrupt_at=None, interrupt_exc=None, limit=20.0,
